@@ -4,7 +4,6 @@
 
 use crate::engine::*;
 use crate::gen_expr::gen_case;
-use crate::props::c01::assignments;
 use crate::props::c05::{cmd_text, gen_cfg, name_ok};
 use crate::refeval::{self, Env};
 use crate::refval::{Arr, Bv, Val};
@@ -566,7 +565,8 @@ impl Prop for C14 {
                 let st = symtab(&case.ctx, &syms);
                 let mut rng = SplitMix(hash_bytes(tape));
                 let used = refeval::symbols_of(&case.ctx, &roots);
-                let (envs, _) = assignments(&case.ctx, &used, &mut rng, 10, 8);
+                let dict = crate::props::c01::dictionary(&case.ctx, &roots);
+                let (envs, _) = crate::props::c01::assignments_with(&case.ctx, &used, &mut rng, 10, 8, &dict);
                 let ctx = &mut case.ctx;
                 let bool_roots: Vec<ExprRef> =
                     roots.iter().copied().filter(|r| r.get_bv_type(ctx) == Some(1)).collect();
@@ -944,7 +944,8 @@ impl Prop for C14 {
                     Ok(Ok(Some(r))) => {
                         let mut rng = SplitMix(hash_bytes(tape));
                         let used = refeval::symbols_of(ctx, &[root, r]);
-                        let (envs, _) = assignments(ctx, &used, &mut rng, 10, 8);
+                        let dict = crate::props::c01::dictionary(ctx, &[root, r]);
+                        let (envs, _) = crate::props::c01::assignments_with(ctx, &used, &mut rng, 10, 8, &dict);
                         if let Err(m) = equivalent(ctx, root, r, &envs) {
                             return Err(Failure::new(
                                 format!("smt-read/malformed/{}/{}/wrong-value", which, edit_name),
